@@ -862,8 +862,20 @@ int yr_parser_reduce_string_declaration(
       int32_t prev_min_gap = min_gap;
       int32_t prev_max_gap = max_gap;
 
-      result = yr_re_ast_split_at_chaining_point(
-          re_ast, &remainder_re_ast, &min_gap, &max_gap);
+      // A gap between chained strings matches any byte, so only strings whose
+      // "dot" matches newlines too (hex strings, regexps with /s) can be split.
+      if (modifier.flags & STRING_FLAGS_DOT_ALL)
+      {
+        result = yr_re_ast_split_at_chaining_point(
+            re_ast, &remainder_re_ast, &min_gap, &max_gap);
+      }
+      else
+      {
+        result = ERROR_SUCCESS;
+        remainder_re_ast = NULL;
+        min_gap = 0;
+        max_gap = 0;
+      }
 
       if (result != ERROR_SUCCESS)
         goto _exit;
